@@ -93,6 +93,29 @@ def r2_placeholders(R) -> None:
         raise Unsupported(f'{fn.q}: the template formatted is `{text(recv)[:70]}`')
     R.check(ok, fn.q, f'template-selection:{text(recv)[:80]}',
             'with_type_hints selects the typed template, otherwise the untyped one', f'template selection is `{text(recv)[:100]}`', where=fn.fi.where)
+    # what is returned is the filled-in template itself: nothing rewrites the text once the equations are in it
+    from fsa.gated import leaves, lift_ifs
+    for r in fn.returns():
+        if r.ast.value is None:
+            continue
+        try:
+            lv = leaves(canon(lift_ifs(canon(se.value(r.ast, r.ast.value)))))
+        except (Unsupported, Unknown):
+            continue
+        done = set()
+        for (_facts, leaf) in lv:
+            fm = [x for x in ast.walk(leaf) if method_call(x, 'format') and {k.arg for k in x.keywords} >= set(FIELDS)]
+            kind_ = 'rewritten' if fm and leaf is not fm[0] else ('plain' if fm else None)
+            if kind_ is None or kind_ in done:
+                continue
+            done.add(kind_)
+            if fm and leaf is not fm[0]:
+                outer = text(leaf)
+                R.violation(fn.q, 'rewritten-after-format:' + outer[:40],
+                            f'the filled-in definition is passed through `{outer[:60]}...` before it is returned: a text replacement over the whole definition also rewrites the '
+                            f'equations and verbatim code inserted into it (e.g. `x[1: 3, t]` read as an annotation), so the code that runs is not the code as written', where=fn.where(r))
+            elif fm:
+                R.check(True, fn.q, 'returns-formatted-template', 'the filled-in template is returned as it is', '', where=fn.where(r))
 
 
 def r3_build_model(R) -> None:
